@@ -142,3 +142,101 @@ func init() {
 			return obs
 		}})
 }
+
+// WALK.quoted-not-pruned — C19 / C17: astutil.Walk / WalkSExprs is the walker
+// under every lint analyzer (builtin-arity, user-arity and the construction of
+// their skip sets).  A list written with brackets READS as a quoted list, and
+// let / flet / labels binding lists, cond clauses and handler-bind entries are
+// syntax whether bracketed or not — so a generic walker that stops at quoted
+// lists never reaches the calls inside `(let ([x (f 1 2)]) …)`.  What is data
+// is decided by the analyzers (markQuotedData), per position, not by the walker.
+func init() {
+	register(&Rule{ID: "WALK.quoted-not-pruned", Floor: 1,
+		Doc: "in the generic AST walkers of package astutil (every function that recurses over node.Cells by calling itself) no condition that decides whether a node's children are visited reads the node's quoted flag (IsQuoted() / .quoted), directly or through a boolean helper of the package: bracketed binding lists, cond clauses and handler-bind entries — quoted lists that the evaluator takes apart as syntax — are walked like their parenthesised spelling",
+		Run: func(c *Ctx) []Obligation {
+			const rid = "WALK.quoted-not-pruned"
+			var obs []Obligation
+			inAst := func(p string) bool { return rel(p) == "astutil" }
+			var readsQuoted func(info *types.Info, n ast.Node, depth int) bool
+			readsQuoted = func(info *types.Info, n ast.Node, depth int) bool {
+				found := false
+				ast.Inspect(n, func(m ast.Node) bool {
+					switch x := m.(type) {
+					case *ast.SelectorExpr:
+						if x.Sel.Name == "quoted" {
+							found = true
+						}
+					case *ast.CallExpr:
+						if se, ok := ast.Unparen(x.Fun).(*ast.SelectorExpr); ok && se.Sel.Name == "IsQuoted" {
+							found = true
+						}
+						if h := originOf(Callee(info, x)); h != nil && depth < 2 && h.Pkg() != nil && inAst(h.Pkg().Path()) {
+							if hd := c.declOf[h]; hd != nil && hd.Body != nil {
+								if readsQuoted(c.pkgOf[hd].TypesInfo, hd.Body, depth+1) {
+									found = true
+								}
+							}
+						}
+					}
+					return !found
+				})
+				return found
+			}
+			for _, u := range c.Funcs(inAst) {
+				if u.Decl == nil || u.Decl.Body == nil {
+					continue
+				}
+				info := u.Pkg.TypesInfo
+				// a recursive walker: calls itself inside a range over <x>.Cells
+				recursive := false
+				ast.Inspect(u.Decl.Body, func(n ast.Node) bool {
+					rs, ok := n.(*ast.RangeStmt)
+					if !ok {
+						return true
+					}
+					if se, ok := ast.Unparen(rs.X).(*ast.SelectorExpr); !ok || se.Sel.Name != "Cells" {
+						return true
+					}
+					for _, ce := range callsIn(rs.Body, true) {
+						if originOf(Callee(info, ce)) == u.Obj {
+							recursive = true
+						}
+					}
+					return true
+				})
+				if !recursive {
+					continue
+				}
+				ord := &ordinal{}
+				n := 0
+				ast.Inspect(u.Decl.Body, func(m ast.Node) bool {
+					var cond ast.Expr
+					switch x := m.(type) {
+					case *ast.IfStmt:
+						cond = x.Cond
+					case *ast.CaseClause:
+						for _, e := range x.List {
+							if readsQuoted(info, e, 0) {
+								cond = e
+							}
+						}
+					}
+					if cond == nil {
+						return true
+					}
+					n++
+					construct := ord.next("pruning condition")
+					if readsQuoted(info, cond, 0) {
+						obs = append(obs, mkOb(c, rid, u, construct, cond, Violated, "whether the walker descends into a list depends on the list's quoted flag: a bracketed binding list, cond clause or handler-bind entry reads as a quoted list and is syntax, so the calls inside `(let ([x (f 1 2)]) …)` are never visited — arity checks, and the skip sets built with the same walker, silently miss them", true))
+					} else {
+						obs = append(obs, mkOb(c, rid, u, construct, cond, Proved, "does not read the quoted flag", false))
+					}
+					return true
+				})
+				if n == 0 {
+					obs = append(obs, mkOb(c, rid, u, "walker", u.Decl, Proved, "recurses unconditionally", false))
+				}
+			}
+			return obs
+		}})
+}
